@@ -21,6 +21,8 @@ SIMS = {
     "ebpf": (8, None), "f100_l": (2, 17), "lc3": (2, 17), "mips": (4, None), "riscv": (4, None), "stm8": (1, 24),
     "tms1000": (1, 11), "tms9900": (2, 16), "z80": (1, 16),
 }
+# names just outside each register file (what a typo in `set` reaches)
+EDGE_REGS = ["x32", "x33", "r16", "r32", "r8", "r11", "$32", "$33", "r255", "x-1", "r-1", "", "r", "x", "$", "pcc", "r1000000000000"]
 REGNAMES = ["pc", "sp", "sr", "a", "x", "y", "b", "c", "d", "e", "h", "l", "f", "ix", "iy", "hl", "bc", "de", "wp", "st", "cc",
             "r0", "r1", "r2", "r3", "r4", "r5", "r6", "r7", "r8", "r9", "r10", "r11", "r12", "r13", "r14", "r15", "r16", "r26",
             "r31", "$t0", "$sp", "$ra", "$a0", "x1", "x2", "x5", "x31", "t0", "ra", "n", "z", "v", "df", "q", "p", "psr"]
@@ -109,12 +111,18 @@ class C15(Engine):
                     code[0:2] = bytes([hi, lo]) if big else bytes([lo, hi])
                 elif unit == 4:
                     code[0:4] = bytes([hi, lo, code[2], code[3]]) if big else bytes([code[0], code[1], lo, hi])
+                    if cpu == "mips" and rng.chance(1, 3):
+                        # SPECIAL (R-type): the function field in the low six bits selects the operation
+                        rs, rt = rng.below(32), rng.below(32)
+                        rd, sh = (0, 0) if rng.chance(1, 2) else (rng.below(32), rng.below(32))
+                        w32 = (rs << 21) | (rt << 16) | (rd << 11) | (sh << 6) | (stratum & 63)
+                        code[0:4] = w32.to_bytes(4, "big" if big else "little")
                 else:
                     code[0] = first
             wins = [[base, bytes(code).hex()]]
             if rng.chance(1, 2):
                 wins.append([rng.pick([0, top - 8, top - 2, 0x7ffe, 0xfffe, 0x1fe]) & 0xffffffff, rng.bytes(8).hex()])
-            rnames = CPU_REGS[cpu] if rng.chance(3, 4) else REGNAMES
+            rnames = CPU_REGS[cpu] if rng.chance(3, 4) else (REGNAMES if rng.chance(1, 2) else EDGE_REGS)
             regs = [[rng.pick(rnames), rng.pick(VALUES) if rng.chance(3, 4) else rng.below(1 << 16)] for _ in range(rng.range(0, 6))]
             if rng.chance(1, 3):
                 # a fully seeded register file: every register the simulator lets the user set (index registers at 0x80..0xff
